@@ -345,7 +345,7 @@ def run(tier, seed, replay=None):
         "exhaustive": tier == "thorough",
     }
     cov.update(res.coverage)
-    core.write_evidence(res, "model_checking", cov, assumptions=[
+    core.write_evidence(res, "exploration", cov, assumptions=[
         "CPython 3.12 (the interpreter running the suite) is the oracle for membership and for the tree",
         "absent fields, None and [] are one value; Constant.kind and type_comment are ignored; a sole expression statement returned as Expression in exec mode is wrapped the way Execer.parse wraps it; exec/single input ends with a newline (Execer appends it)",
         "bounded nesting depth 3 and fixed identifier/constant pools",
